@@ -1,12 +1,90 @@
-import LSProofs.Wf
-/-! # C11 — placeholder while the refinement development is being written (see DESIGN 4.4) -/
+import LSProofs.TextSpec
+/-!
+# C11 — capacity is a promise: reserved room is really there and really reused
+-/
 namespace LS.C11
 open LS
 
-theorem init_wf (st : List Bytes) (hst : ∀ t ∈ st, Valid t ∧ t.length ≤ STATIC_MAX_LEN) :
-    Wf { statics := st } := wf_init st hst
-
 /-- guards of the capacity tests as in the source -/
 theorem guards : Gen.guardReserveUnique = ">=" ∧ Gen.guardWithCapacity = "<=" ∧ Gen.guardReserveInline = ">" := ⟨rfl, rfl, rfl⟩
+
+/-- (a) `capacity() ≥ len()` for every handle of every well-formed (hence every reachable) world -/
+theorem cap_ge_len (w : World) (hw : Wf w) (h : Nat) (r : Handle) (hg : w.get h = some r) :
+    r.len ≤ capOf w.heap r := by
+  obtain ⟨t, g, _⟩ := good_of_wf hw hg
+  rw [good_len g]; exact good_len_le_cap g
+
+/-- `capOf` is what `capacity()` returns -/
+theorem capOf_is_capacity (hp : Heap) (r : Handle) (c : Nat) (h : r.capacity hp = .ok c) : capOf hp r = c := by
+  cases r with
+  | inl raw => simp only [Handle.capacity, Except.ok.injEq] at h; rw [← h]; simp [capOf, Tie.maxInline_eq]
+  | stat s l => simp only [Handle.capacity, Except.ok.injEq] at h; rw [← h]; simp [capOf]
+  | heap a l =>
+    simp only [Handle.capacity] at h
+    cases hb : hp.get? a with
+    | none => rw [hb] at h; cases h
+    | some b => rw [hb] at h; injection h with h; simp [capOf, hb, h]
+
+/-- (b) `with_capacity(n)`: capacity at least `n`, empty text -/
+theorem with_capacity (rf : Refuse) (w : World) (d n : Nat) (plain : Bool) (hw : Wf w) (hd : w.get d = none) :
+    ((step rf w (.withCapacity d n plain)).2 = .ok .unit ∧
+      ∃ r, (step rf w (.withCapacity d n plain)).1.get d = some r ∧ n ≤ capOf (step rf w (.withCapacity d n plain)).1.heap r ∧
+        (step rf w (.withCapacity d n plain)).1.text d = some []) ∨
+    ((step rf w (.withCapacity d n plain)).2 = failOut plain) := by
+  simp only [step, hd, Option.isSome_none, Bool.false_eq_true, if_false]
+  rcases withCapacity_fresh (st := w.statics) (linv_empty hw hd) rf n with ⟨hp1, he, hs⟩ | ⟨hp1, r, he, g, hc⟩
+  · rw [he]; right; rfl
+  · rw [he]; left; exact ⟨rfl, r, World.get_put_self .., hc, text_put_self g⟩
+
+/-- (c) a successful `reserve(n)`: capacity at least `len + n`, storage exclusively owned (inline
+or a heap block with count 1 — a static or shared target has been converted) -/
+theorem reserve_post (rf : Refuse) (w : World) (h : Nat) (t : Bytes) (n : Nat) (plain : Bool) (hw : Wf w)
+    (ht : w.text h = some t) (hok : (step rf w (.reserve h n plain)).2 = .ok .unit) :
+    ∃ r', (step rf w (.reserve h n plain)).1.get h = some r' ∧ Unique (step rf w (.reserve h n plain)).1.heap r' ∧
+      t.length + n ≤ capOf (step rf w (.reserve h n plain)).1.heap r' := by
+  rcases reserve_refines (rf := rf) hw ht n plain with ⟨_, _, h3⟩ | ⟨h1, _⟩
+  · exact h3
+  · rw [hok] at h1; cases plain <;> simp [failOut] at h1
+
+/-- (d) within the reported capacity of an exclusively owned string, `reserve` does nothing:
+no request, same handle — so `push`/`push_str`/`insert`/`insert_str` neither allocate nor move -/
+theorem reserve_within_capacity (rf : Refuse) (st : List Bytes) (hp : Heap) (r : Handle) (add : Nat)
+    (hu : Unique hp r) (hc : r.len + add ≤ capOf hp r) (hl : r.len + add < 2 ^ 64) :
+    reserve rf st hp r add = .ok () hp r := by
+  have h16 := Tie.maxInline_eq
+  have hca : checkedAdd r.len add = some (r.len + add) := by simp [checkedAdd, USIZE, hl]
+  unfold reserve
+  simp only [hca]
+  cases r with
+  | stat s l => exact absurd hu (by simp [Unique])
+  | inl raw => simp only [capOf] at hc; simp only []; rw [if_neg (by omega)]
+  | heap a l =>
+    obtain ⟨b, hb, hrc⟩ := hu
+    simp only [capOf, hb] at hc
+    simp only [hb, hrc, if_true]; rw [if_pos (by omega)]
+
+/-- … and the write that follows keeps the same storage: no allocator traffic, same block -/
+theorem push_within_capacity (rf : Refuse) (w : World) (h : Nat) (r : Handle) (t s : Bytes) (hw : Wf w)
+    (hg : w.get h = some r) (ht : w.text h = some t) (hs : Valid s) (hu : Unique w.heap r)
+    (hc : t.length + s.length ≤ capOf w.heap r) (hne : s ≠ []) :
+    ∃ hp' r', pushStr rf w.statics w.heap r s = .ok () hp' r' ∧ hp'.reqs = w.heap.reqs ∧ hp'.log = w.heap.log ∧
+      (∀ a, onBlock a (some r') = onBlock a (some r)) ∧ capOf hp' r' = capOf w.heap r := by
+  obtain ⟨r0, hg0, g⟩ := good_of_text hw ht
+  rw [hg] at hg0; injection hg0 with hg0; subst hg0
+  have hlen := good_len g
+  have hML := Tie.maxLen_eq
+  have hcapb : capOf w.heap r ≤ MAX_LEN := by
+    cases r with
+    | inl raw => simp [capOf]; omega
+    | stat s' l => exact absurd hu (by simp [Unique])
+    | heap a l => obtain ⟨b, hb, _⟩ := hu; simp only [capOf, hb]; exact (hw.blocks a b hb).2.2.1
+  have hres := reserve_within_capacity rf w.statics w.heap r s.length hu (by rw [hlen]; exact hc) (by rw [hlen]; omega)
+  obtain ⟨hp2, r2, hwr, _, _, hcap2, hq, hlg, _, hsame⟩ := good_write g hu t.length s (Nat.le_refl _) hc
+    (by rw [List.take_length]; exact valid_append g.valid hs)
+  refine ⟨hp2, r2, ?_, hq, hlg, hsame, hcap2⟩
+  unfold pushStr
+  have : s.isEmpty = false := by cases s <;> simp at hne ⊢
+  simp only [this, Bool.false_eq_true, if_false, hres, hlen]
+  exact hwr
 
 end LS.C11
